@@ -10,7 +10,7 @@ ids=${*:-$(seq -f 'C%02g' 1 20)}
 for id in $ids; do
   ./check $id --tier quick --seed 1 > $COV/$id.log 2>&1; echo "$id rc=$?"
 done
-(cd harness && go tool covdata textfmt -i=$COV -o $COV/cover.txt && go tool cover -func=$COV/cover.txt > $COV/func.txt)
+(cd harness && go tool covdata textfmt -i=$COV -o $COV/cover.txt && grep -v "^verif/harness" $COV/cover.txt > $COV/lib.txt; go tool cover -func=$COV/lib.txt > $COV/func.txt)
 tail -1 $COV/func.txt
 awk '$3+0 < 100.0' $COV/func.txt | sort -t$'\t' -k3 -n | head -80
 echo "profile: $COV/cover.txt"
